@@ -515,7 +515,9 @@ func init() {
 				case "RW.FILEPASSES":
 					return strings.HasPrefix(o.Construct, "per-file state")
 				case "DET.TMP":
-					return strings.Contains(o.Construct, "starts empty")
+					// (leftovers of earlier runs; and the generated files exist at all: the stages load the right
+					// directories and nothing but the intermediate directory is removed)
+					return strings.Contains(o.Construct, "starts empty") || strings.Contains(o.Construct, "the stages load") || strings.Contains(o.Construct, "nothing but")
 				}
 				return true
 			})
